@@ -17,11 +17,11 @@ done
 # rand.c is anchored only as qsort's pivot source; it must still compile
 par igc_one $BUILD/shim $BUILD/igc_rand_unused.o $REPO/compat/libc/stdlib/rand.c
 CXX="g++ -std=c++17 -O2 -g -fno-builtin -I$MC -I$H"
-for t in c11_strto c11_sort; do par $CXX -c $H/$t.cpp -o $BUILD/$t.o; done
+for t in c11_strto c11_sort c11_large; do par $CXX -c $H/$t.cpp -o $BUILD/$t.o; done
 par g++ -std=c++17 -O2 -c -I$MC $MC/mc.cpp -o $BUILD/mc.o
 parwait
 for fn in strtol strtoul strtoll strtoull strtoimax strtoumax atoi atol qsort bsearch; do
     nm $OBJS | grep -q " [TW] igc_$fn\$" || { echo "igc_$fn is not defined by the repository sources"; exit 1; }
 done
-g++ $BUILD/c11_strto.o $BUILD/c11_sort.o $OBJS $BUILD/mc.o -o $BUILD/c11
+g++ $BUILD/c11_strto.o $BUILD/c11_sort.o $BUILD/c11_large.o $OBJS $BUILD/mc.o -o $BUILD/c11
 echo "stdlib $BUILD/c11" > $BUILD/runs.txt
